@@ -52,6 +52,7 @@ type State struct {
 	guards   map[string]guardInfo
 	lockSnapNames map[string][]string
 	loopFrame     map[string][]string
+	havocked bool    // some callee may have changed arrays this path has not touched yet
 	sink     *[]Term // specification views: facts produced by heap reads are collected here
 }
 
@@ -86,6 +87,7 @@ func (st *State) clone() *State {
 		n.loopSnap[k] = v
 	}
 	n.nAssume = st.nAssume
+	n.havocked = st.havocked
 	n.loopFrame = make(map[string][]string, len(st.loopFrame))
 	for k, v := range st.loopFrame {
 		n.loopFrame[k] = v
@@ -127,6 +129,9 @@ func (st *State) comment(s string) {
 
 // check emits an obligation and then assumes its goal (assert-then-assume).
 func (st *State) check(o *Obligation, goal Term) {
+	if st.x.assumeFalseAtExit && o.Kind != "cover" {
+		return // vacuity probe: only reachability of the exits is asked
+	}
 	goal = st.x.applyKnown(o, goal)
 	o.Path = strings.Join(st.path, ">")
 	o.Goal = goal.S
@@ -150,10 +155,16 @@ func (st *State) initHeap(name string, sort Sort) Term {
 		st.x.arrOf[n] = name
 		switch {
 		case strings.HasSuffix(name, ".w") && strings.HasPrefix(name, "L."):
-			// this call holds no lock on entry
-			e.decls = append(e.decls, fmt.Sprintf("(assert (= %s ((as const (Array Ref Bool)) false)))", n))
+			// this call holds no lock on entry, except those its contract requires to be held
+			e.decls = append(e.decls, "(assert "+st.x.entryLockFact(name, n, true)+")")
 		case strings.HasSuffix(name, ".r") && strings.HasPrefix(name, "L."):
-			e.decls = append(e.decls, fmt.Sprintf("(assert (= %s ((as const (Array Ref Int)) 0)))", n))
+			e.decls = append(e.decls, "(assert "+st.x.entryLockFact(name, n, false)+")")
+		case strings.HasPrefix(name, "MD."):
+			// a nil map has no entries
+			_, es := splitArr(sort)
+			e.decls = append(e.decls, fmt.Sprintf("(assert (= (select %s null) ((as const %s) false)))", n, es))
+		case strings.HasPrefix(name, "ML."):
+			e.decls = append(e.decls, fmt.Sprintf("(assert (= (select %s null) 0))", n))
 		case name != "alloc":
 			if c := st.closure(t, Term{mangle("alloc") + "@0", SArr(SRef, SBool)}); c != "" {
 				e.declare(mangle("alloc")+"@0", SArr(SRef, SBool))
@@ -215,6 +226,12 @@ func (st *State) hget(name string, sort Sort) Term {
 	if t, ok := st.heap[name]; ok {
 		return t
 	}
+	st.initHeap(name, sort) // registers the array (sort, closure axiom of the entry version)
+	if st.havocked && !strings.HasPrefix(name, "L.") && name != "alloc" {
+		// first touched after a call that may have changed everything: not the entry version
+		st.hhavoc(name)
+		return st.heap[name]
+	}
 	t := st.initHeap(name, sort)
 	st.heap[name] = t
 	return t
@@ -235,7 +252,12 @@ func (st *State) hhavoc(name string) {
 	t := st.x.enc.Fresh(name+"@h", sort)
 	st.x.arrOf[t.S] = name
 	st.heap[name] = t
-	if name != "alloc" && !strings.HasPrefix(name, "L.") {
+	if strings.HasPrefix(name, "MD.") {
+		_, es := splitArr(sort)
+		st.assume(Term{fmt.Sprintf("(= (select %s null) ((as const %s) false))", t.S, es), SBool})
+	} else if strings.HasPrefix(name, "ML.") {
+		st.assume(Eq(Select(t, TNull), IntLit(0)))
+	} else if name != "alloc" && !strings.HasPrefix(name, "L.") {
 		if c := st.closure(t, st.hget("alloc", SArr(SRef, SBool))); c != "" {
 			st.assume(Term{c, SBool})
 		}
@@ -266,6 +288,7 @@ func (st *State) havocAll(except func(string) bool) {
 		st.hhavoc(name)
 	}
 	st.x.havocAllUsed = true
+	st.havocked = true
 	_ = oldAlloc
 }
 
